@@ -45,7 +45,34 @@ pub fn generated_base(seed: u64, b: u64) -> Base {
         }
         best = gen::gen_sprite(&mut rng, &cfg);
     }
-    let (sp, pp) = best;
+    let (mut sp, pp) = best;
+    if b % 4 == 1 {
+        // long names mixing 1- to 4-byte characters with a short ASCII prefix, so that character boundaries fall on
+        // every byte offset modulo 4 (error messages, truncations and previews that slice names by bytes)
+        let mut long_name = |rng: &mut Rng| -> String {
+            let mut s: String = (0..rng.below(4)).map(|_| 'x').collect();
+            let n = rng.range(36, 90) as usize;
+            while s.len() < n {
+                s.push(*rng.pick(&['é', '語', '🙂', 'a', 'ß', '€']));
+            }
+            s
+        };
+        for l in sp.layers.iter_mut() {
+            l.name = long_name(&mut rng);
+        }
+        for t in sp.tags.iter_mut() {
+            t.name = long_name(&mut rng);
+        }
+        for s in sp.slices.iter_mut() {
+            s.name = long_name(&mut rng);
+        }
+        for t in sp.tilesets.iter_mut() {
+            t.name = long_name(&mut rng);
+        }
+        for e in sp.ext_files.iter_mut() {
+            e.name = long_name(&mut rng);
+        }
+    }
     let mut v = Variation::none();
     v.storage = true;
     v.ignorable = rng.chance(1, 2);
@@ -294,7 +321,7 @@ fn chunk_positions(spec: &FileSpec, kind: &str) -> Vec<(usize, usize)> {
     v
 }
 
-pub const MODEL_OPS: [&str; 60] = [
+pub const MODEL_OPS: [&str; 63] = [
     "cel_payload_short",
     "cel_payload_long",
     "cel_decl_bigger",
@@ -355,6 +382,9 @@ pub const MODEL_OPS: [&str; 60] = [
     "tilemap_extent_i32",
     "tileset_strip_height_u32",
     "palette_colliding_keys",
+    "transparent_index_without_entry",
+    "many_links_to_big_tilemap",
+    "big_honest_cel",
 ];
 
 fn fmt_of(spec: &FileSpec) -> Fmt {
@@ -581,6 +611,12 @@ pub fn model_input(base: &Base, op: usize, rng: &mut Rng, deep_groups: usize) ->
             if name != "link_to_link" {
                 spec.frames[tf].chunks.push(ChunkSpec::Cel { layer: lyr, c: CelM { x: 0, y: 0, opacity: 255, content: CelContentM::Link(to), ud: None }, storage: Storage::Raw, reserved: [0; 7], cel_type_override: None }.into());
                 label = format!("link cel frame {} layer {} -> frame {} ({} frames, {} layers)", tf, lyr, to, spec.frames.len(), nl);
+                if rng.chance(1, 2) {
+                    // a user-data record for that cel: whatever the parser does with the record happens BEFORE the
+                    // link is validated
+                    spec.frames[tf].chunks.push(ChunkSpec::UserData(UserDataM { text: Some("on the link".into()), color: Some([1, 2, 3, 4]) }).into());
+                    label.push_str(", followed by a user-data record");
+                }
             }
         }
         "first_layer_level" | "level_jump" => {
@@ -634,8 +670,15 @@ pub fn model_input(base: &Base, op: usize, rng: &mut Rng, deep_groups: usize) ->
             spec.frames.push(FrameSpec::new(10));
             spec.header.frames += 1;
             let nfx = spec.frames.len() - 1;
-            let chunk = if name == "tilemap_cel_on_image_layer" {
-                ChunkSpec::Cel { layer: li, c: CelM { x: 0, y: 0, opacity: 255, content: CelContentM::Tilemap { w: 2, h: 2, tiles: vec![0, 1, 0, 1], masks: [0x1fff_ffff, 0x2000_0000, 0x4000_0000, 0x8000_0000] }, ud: None }, storage: Storage::Zlib(6), reserved: [0; 7], cel_type_override: None }
+            // (also the degenerate tile grids 0x0, 0x3, 3x0: "nothing to check" must not mean "no check")
+            let (tw, th, tiles): (u16, u16, Vec<u32>) = match rng.below(4) {
+                0 => (0, 0, vec![]),
+                1 => (0, 3, vec![]),
+                2 => (3, 0, vec![]),
+                _ => (2, 2, vec![0, 1, 0, 1]),
+            };
+            let chunk = if name == "tilemap_cel_on_image_layer" || (name == "cel_on_group_layer" && rng.chance(1, 3)) {
+                ChunkSpec::Cel { layer: li, c: CelM { x: 0, y: 0, opacity: 255, content: CelContentM::Tilemap { w: tw, h: th, tiles, masks: [0x1fff_ffff, 0x2000_0000, 0x4000_0000, 0x8000_0000] }, ud: None }, storage: Storage::Zlib(6), reserved: [0; 7], cel_type_override: None }
             } else {
                 raw_cel(li, fmt, 2, 2)
             };
@@ -757,6 +800,66 @@ pub fn model_input(base: &Base, op: usize, rng: &mut Rng, deep_groups: usize) ->
                 at += 1;
             }
             label = format!("{} user-data records after a tags({}) chunk", n + 1, n);
+        }
+        "transparent_index_without_entry" => {
+            // indexed sprite whose transparent index has no palette entry although pixels use it - on a background
+            // layer (where that index is an ordinary colour), on a normal layer, or on both
+            let t = *rng.pick(&[0u8, 5, 200]);
+            let mut sp = Sprite::blank(3, 3, Fmt::Indexed, 1);
+            sp.transparent_index = t;
+            let mut pal = std::collections::BTreeMap::new();
+            for i in (if t == 0 { 1u32 } else { 0 })..4 {
+                pal.insert(i, PalEntryM { rgba: [i as u8 * 60, 9, 9, 255], name: None });
+            }
+            sp.palette = Some(pal);
+            let mut bg = LayerM::image("bg");
+            bg.flags |= LF_BACKGROUND;
+            sp.layers.push(bg);
+            sp.layers.push(LayerM::image("top"));
+            let which = rng.below(3);
+            for l in 0..2u16 {
+                let uses_t = which == 2 || which == l as u64;
+                let px = if uses_t { vec![1, t, 2, 3] } else { vec![1, 2, 3, 1] };
+                sp.cels.insert((0, l), CelM { x: 0, y: 0, opacity: 255, content: CelContentM::Image { w: 2, h: 2, pixels: px }, ud: None });
+            }
+            let mut r = Rng::new(5);
+            let mut v = Variation::none();
+            v.default_storage = if rng.chance(1, 2) { Storage::Raw } else { Storage::Zlib(6) };
+            spec = crate::program::compile(&sp, &mut r, &v);
+            label = format!("indexed sprite: transparent index {} has no palette entry, used by pixels on {}", t, ["the background layer", "the normal layer", "both layers"][which as usize]);
+        }
+        "big_honest_cel" => {
+            // well-formed and honest: one flat-colour cel that really inflates to 100 MiB (a ~100 KB file). It must load
+            // within the bound - and whatever it teaches the process must not loosen the treatment of the hostile
+            // inputs that the same process loads afterwards
+            let side = 5120u16;
+            let mut sp = Sprite::blank(8, 8, Fmt::Rgba, 1);
+            sp.layers.push(LayerM::image("big"));
+            sp.cels.insert((0, 0), CelM { x: 0, y: 0, opacity: 255, content: CelContentM::Image { w: side, h: side, pixels: [40u8, 90, 200, 255].iter().cycle().take(side as usize * side as usize * 4).cloned().collect() }, ud: None });
+            let mut r = Rng::new(5);
+            let mut v = Variation::none();
+            v.default_storage = Storage::Zlib(6);
+            spec = crate::program::compile(&sp, &mut r, &v);
+            label = format!("honest {}x{} RGBA cel of one colour (100 MiB of pixels)", side, side);
+        }
+        "many_links_to_big_tilemap" => {
+            // well-formed: one large, highly compressible tilemap cel and dozens of frames linked to it
+            let side = *rng.pick(&[1024u16, 2048]);
+            let nlinks = *rng.pick(&[40usize, 120]);
+            let mut sp = Sprite::blank(4, 4, Fmt::Rgba, nlinks + 1);
+            sp.tilesets.push(TilesetM { id: 0, flags: TS_EMBED | TS_ZERO_EMPTY, count: 2, tw: 1, th: 1, base_index: 1, name: "t".into(), ext: None, pixels: vec![0, 0, 0, 0, 9, 9, 9, 255] });
+            let mut l = LayerM::image("tm");
+            l.kind = LayerKind::Tilemap(0);
+            sp.layers.push(l);
+            sp.cels.insert((0, 0), CelM { x: 0, y: 0, opacity: 255, content: CelContentM::Tilemap { w: side, h: side, tiles: vec![1u32; side as usize * side as usize], masks: [0x1fff_ffff, 0x2000_0000, 0x4000_0000, 0x8000_0000] }, ud: None });
+            for f in 1..=nlinks {
+                sp.cels.insert((f as u16, 0), CelM { x: 0, y: 0, opacity: 255, content: CelContentM::Link(0), ud: None });
+            }
+            let mut r = Rng::new(5);
+            let mut v = Variation::none();
+            v.default_storage = Storage::Zlib(6);
+            spec = crate::program::compile(&sp, &mut r, &v);
+            label = format!("{}x{}-tile tilemap cel (all one tile) and {} frames linked to it", side, side, nlinks);
         }
         "palette_colliding_keys" => {
             // well-formed: an indexed sprite whose palette arrives as thousands of one-entry chunks at indices that are
